@@ -18,12 +18,15 @@ LIST_MUTATORS = {"remove", "pop", "sort", "reverse", "clear", "extend", "__delit
 
 def run(prog: Program, chk: Check):
     chk.explanation = (
-        "C11 decided clauses: (P) check_alignment mutates the field list only by insert/append of Field objects it constructs itself "
+        "C11: (N) the core clause is decided by abstract interpretation of check_alignment's current source over a finite family of "
+        "field sequences that is complete for its control decisions (they read the running offset only modulo the alignment, a divisor "
+        "of 8): every user field lands on its natural C offset, only char padding is inserted, the size equals the natural C size and "
+        "is a multiple of the strictest alignment; with auto_pad off a layout is accepted exactly when it needs no padding. Structural clauses: (P) check_alignment mutates the field list only by insert/append of Field objects it constructs itself "
         "with the `char` padding type, never removes/reorders/rebinds/retypes user fields (only `offset` is stored); (A) every padding "
         "construction is dominated by self.auto_pad (the `not auto_pad -> raise AlignmentError` exits precede them); (S) every "
         "definition stored with fields passed validate_msg_def, which rejects size > 65535 on every normal exit and calls "
-        "check_alignment exactly under validate_alignment. NOT decided: the arithmetic claim that every offset is aligned for every "
-        "field sequence. Thorough tier: independent natural-layout recomputation of every shipped definition (supplementary)."
+        "check_alignment exactly under validate_alignment. Not decided: what an actual C compiler lays out (trusted to be the natural "
+        "layout). Thorough tier: deeper sequences for (N) and an independent natural-layout recomputation of every shipped definition."
     )
     ca = prog.func(PAR, "Parser.check_alignment")
     g = C.build(ca.node)
@@ -151,6 +154,8 @@ def run(prog: Program, chk: Check):
                 if f.qual not in ("Parser.handle_message_def", "Parser.handle_struct", "Parser.handle_signal"):
                     S.bad(fkey(f, n), where(f, n), f"{f.qual} registers a definition outside the validated handlers")
 
+    alignment_induction(prog, chk)
+
     # ---- L (thorough, supplementary): natural layout of every shipped definition -----------------------------------------
     if chk.tier == "thorough":
         from ..artefacts import shipped_layout_report
@@ -160,3 +165,144 @@ def run(prog: Program, chk: Check):
         for key, loc, okk, detail in shipped_layout_report(prog):
             L.decide(okk, key, loc, detail, detail)
     chk.units.update({"padding_constructions": len(ctor), "padding_insertions": inserted})
+
+
+# ---------------------------------------------------------------------------------------------------------------
+def natural(fields):
+    """Independent natural C layout of [(align, size)] -> (offsets, total size incl. tail padding, max align)."""
+    ptr, offs, mx = 0, [], 1
+    for a, sz in fields:
+        ptr += (-ptr) % a
+        offs.append(ptr)
+        ptr += sz
+        mx = max(mx, a)
+    return offs, ptr + ((-ptr) % mx), mx
+
+
+def alignment_induction(prog: Program, chk: Check):
+    """C11-N: abstract interpretation of the *current source* of Parser.check_alignment over a finite family of field
+    sequences that is complete for its control decisions: every decision reads the running offset only through
+    `ptr % alignment` with alignment in {1,2,4,8}, so it depends on ptr mod 8 only.  A leading `char[r]` (r = 0..7)
+    reaches every residue; the following one or two fields range over every (alignment, element size, array length)
+    class.  Nothing from the repository is executed: the function is interpreted by sa.setalg over model objects, and
+    its final ctypes size assertion is answered by the independent natural-layout calculator above."""
+    from .. import artefacts
+    from ..setalg import Interp, ModelRaise, Obj
+
+    N = chk.rule("C11-N", "check_alignment, interpreted over every (offset mod 8, field class) transition: user fields land on their natural offsets, only char padding is inserted, size is a multiple of the strictest alignment; with auto_pad off it accepts exactly the layouts needing no padding", 200,
+                 "the property's core clause; decided exhaustively over the finite abstraction (offset mod 8 x alignment x size class x length)")
+    pm = prog.module(PAR)
+    ca = prog.func(PAR, "Parser.check_alignment")
+    fcls, ncls, scls = pm.classes["Field"], pm.classes["NativeType"], pm.classes["SDF"]
+    natives = artefacts.native_types(prog)
+    nat_objs = {k: Obj(ncls, "NativeType", name=k, size=v[0], format=v[1]) for k, v in natives.items()}
+    by_size = {1: "char", 2: "int16", 4: "int32", 8: "int64"}
+    kinds = []
+    for a in (1, 2, 4, 8):
+        for ln in (None, 1, 2, 3):
+            kinds.append(("native", a, a, ln))
+        for mult in (1, 3):
+            for ln in (None, 2):
+                kinds.append(("struct", a, a * mult, ln))
+    thorough = chk.tier == "thorough"
+    seqs = []
+    for r in range(8):
+        for k1 in kinds:
+            seqs.append(([("native", 1, 1, r)] if r else []) + [k1])
+            if thorough:
+                for k2 in kinds:
+                    seqs.append(([("native", 1, 1, r)] if r else []) + [k1, k2])
+    if not thorough:
+        for k1 in kinds:
+            for k2 in kinds[::3]:
+                seqs.append([k1, k2])
+    steps = 0
+    nrun = 0
+    failures = {}
+
+    def mkfield(i, k):
+        kind, a, sz, ln = k
+        tobj = nat_objs[by_size[a]] if kind == "native" else Obj(None, "SDFstub", size=sz, alignment=a, name=f"S{a}_{sz}")
+        return Obj(fcls, "Field", name=f"u{i}", type_name=(by_size[a] if kind == "native" else f"S{a}_{sz}"), type_obj=tobj,
+                   length_expression=None, length_expanded=None, length=ln, offset=-1)
+
+    def construct(ci, args, kwargs):
+        if ci is fcls:
+            d = dict(name=None, type_name=None, type_obj=None, length_expression=None, length_expanded=None, length=None, offset=-1)
+            for k_, v_ in zip(d, args):
+                d[k_] = v_
+            d.update(kwargs)
+            return Obj(fcls, "Field", **d)
+        raise AnalysisError(f"C11-N vocabulary exceeded: construction of {ci.name}")
+
+    for auto_pad in (True, False):
+        for seq in seqs:
+            nrun += 1
+            user = [mkfield(i, k) for i, k in enumerate(seq)]
+            spec = [(k[1], k[2] * (k[3] or 1)) for k in seq]
+            s_obj = Obj(scls, "SDF", name="X", fields=list(user), alignment=8)
+            parser = Obj(prog.cls(PAR, "Parser"), "Parser", auto_pad=auto_pad)
+
+            def ctype_size(selfobj, args, kwargs):
+                fl = args[0].get("fields")
+                lay = [((f.get("type_obj").get("size") if f.get("type_obj")._clsname == "NativeType" else f.get("type_obj").get("alignment")),
+                        f.get("type_obj").get("size") * (f.get("length") or 1)) for f in fl]
+                return natural(lay)[1]
+
+            it = Interp(prog, {"warning": lambda s_, a_, k_: None, "get_ctype_size": ctype_size}, {"supported_types": nat_objs, "Field": ("class", fcls), "NativeType": ("class", ncls)}, construct=construct)
+            raised = None
+            try:
+                it.call_method(ca, parser, [s_obj])
+            except ModelRaise as r_:
+                raised = r_.name
+            steps += it.steps
+            offs, nsize, mx = natural(spec)
+            needs_pad = offs != [sum(x[1] for x in spec[:i]) for i in range(len(spec))] or nsize != sum(x[1] for x in spec)
+            label = "auto_pad" if auto_pad else "no_auto_pad"
+            why = None
+            fl = s_obj.get("fields")
+            if auto_pad:
+                if raised:
+                    why = f"raises {raised}"
+                else:
+                    kept = [f for f in fl if f in user]
+                    extra = [f for f in fl if f not in user]
+                    if kept != user:
+                        why = "user fields reordered or dropped"
+                    elif any(u.get("name") != f"u{i}" or u.get("length") != seq[i][3] for i, u in enumerate(user)):
+                        why = "a user field was renamed or resized"
+                    elif any(x.get("type_name") != "char" or x.get("type_obj") is not nat_objs["char"] for x in extra):
+                        why = "a non-char padding field was inserted"
+                    else:
+                        # explicit layout: offsets are the running sum; user fields must sit on their natural offsets
+                        ptr, ok_off = 0, True
+                        pos = {}
+                        for f in fl:
+                            pos[id(f)] = ptr
+                            ptr += f.get("type_obj").get("size") * (f.get("length") or 1)
+                        got = [pos[id(u)] for u in user]
+                        if got != offs:
+                            why = f"user fields at offsets {got}, natural C offsets are {offs}"
+                        elif any(u.get("offset") != o for u, o in zip(user, offs)):
+                            why = f"recorded field.offset {[u.get('offset') for u in user]} differs from the real offsets {offs}"
+                        elif ptr != nsize:
+                            why = f"explicit size {ptr} differs from the natural C size {nsize}"
+                        elif s_obj.get("alignment") != mx:
+                            why = f"struct alignment recorded as {s_obj.get('alignment')}, strictest member alignment is {mx}"
+            else:
+                if needs_pad and raised != "AlignmentError":
+                    why = f"needs padding but is {'accepted' if raised is None else 'rejected with ' + raised} with auto_pad off"
+                elif not needs_pad and raised is not None:
+                    why = f"needs no padding but raises {raised} with auto_pad off"
+                elif not needs_pad and fl != user:
+                    why = "field list changed although no padding is needed"
+            key = f"{label}:{'+'.join(f'{k[0][0]}{k[1]}x{k[2]}[{k[3]}]' for k in seq)}"
+            if why:
+                cls_key = f"{label}:{why.split(' ')[0]}:{'+'.join(f'a{k[1]}' for k in seq[-2:])}"
+                failures.setdefault(cls_key, f"{why}; field sequence (kind, alignment, element size, length) = {seq}")
+            else:
+                N.ok(fkey(ca, key), where(ca), "natural layout, char padding only" if auto_pad else ("accepted iff no padding needed"))
+    for k, v in sorted(failures.items())[:12]:
+        N.bad(fkey(ca, k), where(ca), v)
+    chk.extra_coverage.update({"alignment_sequences_interpreted": nrun, "alignment_interpreter_steps": steps, "exhaustive": True,
+                               "alignment_abstraction": "offset mod 8 (leading char[r]) x {native a in 1,2,4,8 with len None/1/2/3; struct a x size a,3a with len None/2}"})
